@@ -84,10 +84,17 @@ func Check_Modes() {
 	anyUnknown := false
 	for i := range ps {
 		if sx.Choose("known", 2) == 1 {
-			ps[i] = pos{known: true, kind: knownPool[sx.Choose("kind", len(knownPool))]}
+			kp := knownPool
+			if n == 3 {
+				kp = knownPool[:3]
+			}
+			ps[i] = pos{known: true, kind: kp[sx.Choose("kind", len(kp))]}
 		} else {
 			anyUnknown = true
 			ls := []uint16{1, 2, 5, 65535}
+			if n == 3 {
+				ls = []uint16{2, 65535} // three positions: fewer length variants
+			}
 			ps[i] = pos{u: unknownPool[sx.Choose("unknownID", len(unknownPool))], length: ls[sx.Choose("unknownLen", len(ls))]}
 		}
 	}
